@@ -233,7 +233,20 @@ func (r *c19Rec) time() time.Time {
 	if r.unix == 0 {
 		return time.Time{}
 	}
-	return time.Unix(r.unix, 0).UTC()
+	// the location and the sub-second part are functions of the second: UTC, a zone east and a
+	// zone west of it (the text handler prints the record's time in the record's location)
+	var ns int64
+	if r.unix%5 == 0 {
+		ns = 123456789
+	}
+	t := time.Unix(r.unix, ns)
+	switch r.unix % 3 {
+	case 1:
+		return t.In(time.FixedZone("E", 5*3600+1800))
+	case 2:
+		return t.In(time.FixedZone("W", -8*3600))
+	}
+	return t.UTC()
 }
 
 func (r *c19Rec) allIDs() (ids []int) {
